@@ -715,7 +715,7 @@ func (h *hintMgr) getCollisionGC(ki *KeyInfo) (it *HintItem, ChunkID int, collis
 	if !collision {
 		// only in mem, in new hints buffers after gc begin
 		it, ChunkID, collision = h.getItemCollision(ki.KeyHash, ki.StringKey)
-	} else {
+	} else if it != nil {
 		ChunkID = it.Pos.ChunkID
 	}
 	return
